@@ -210,8 +210,21 @@ def handleO (st : St) (h : Head) (fr : Framing) (last : Bool) (a : Action) (body
   let st1 := if a.asReaderCalls > 0 && fr.expectContinue then
       st.emit 100 (printResp (Resp.empty 100) [] h.version h.headers true none) true
     else st
+  let zr : Option (Body × OSrc) :=
+    if a.asReaderCalls > 0 && a.zeroRead then
+      (match body with
+       | .limited _ | .chunked _ =>
+         (match Body.drainO (s.bytes.length + 2) body s with
+          | some s' => some (.done, s')
+          | none => none)
+       | _ => some (body, s))
+    else some (body, s)
+  let (body, s, zrBlocked) := match zr with
+    | some (b', s') => (b', s', false)
+    | none => (body, s, true)
   let (got, rend, body1, s1) :=
-    if a.asReaderCalls > 0 && a.readTotal > 0 then
+    if zrBlocked then ([], some ReadOut.pending, body, s)
+    else if a.asReaderCalls > 0 && a.readTotal > 0 then
       Body.readUpToO (a.readTotal + 1) body (max a.bufSize 1) a.readTotal s
     else ([], none, body, s)
   let readEnd : ReadEnd := match rend with
@@ -237,6 +250,10 @@ def handleO (st : St) (h : Head) (fr : Framing) (last : Bool) (a : Action) (body
         let b := wopsBytes ops
         let base := s'.out.length
         { s' with out := s'.out ++ b, flushed := wopsFlushed ops base s'.flushed }
+      | .respondFail r failAfter =>
+        (match printRespFailing r h.version h.headers isHead failAfter with
+         | some (bytes, ok) => st2.emit r.status (some bytes) ok
+         | none => st2.emit r.status none false)
     match Body.drainO (s1.bytes.length + 2) body1 s1 with
     | some s2 => (st3, s2, false)
     | none => (st3, { s1 with bytes := [] }, true)
